@@ -1,2 +1,3 @@
-/- C19 — seesaw grammar round trips: theorems are in Props/C19Ssw.lean. -/
+/- C19 — seesaw grammar round trips: theorems are in Props/C19Ssw.lean and Props/C19More.lean. -/
 import DsdVerif.Props.C19Ssw
+import DsdVerif.Props.C19More
